@@ -15,6 +15,7 @@
 import RumaModel.Lemmas.HtmlTree
 import RumaModel.Lemmas.HtmlTables
 import RumaModel.Lemmas.HtmlPlain
+import RumaModel.Lemmas.HtmlBuilder
 namespace Ruma.Props.C14
 open Ruma Ruma.Html Ruma.Spec.HtmlPolicy Ruma.Lemmas.Html
 
@@ -96,6 +97,145 @@ order: text and descendants of elements that are merely not allowed are kept. -/
 theorem clean_keeps_text_in_order (L : Lists) (c : Cfg) (roots : List Node) :
     textOfL (clean L c roots) = keptTextL L c 0 roots :=
   cleanList_text L c roots 0
+
+/-! ## What is dropped, what is hoisted -/
+
+/-- A removed element leaves nothing — neither itself nor any descendant, text or element:
+removed by name (after the documented replacements), `mx-reply` under reply-fallback removal, or
+nested at or beyond the maximum depth. -/
+theorem clean_drops_subtree (L : Lists) (c : Cfg) (d : Nat) (n : Str) (as : List Attr) (cs : List Node)
+    (h : elemRemoved c (replaceNameOf L c n) = true ∨ depthExceeded L c d = true) :
+    cleanNode L c d (.elem n as cs) = [] := by
+  apply cleanNode_removed
+  rw [removeCheck_eq]
+  rcases h with h | h <;> simp [h]
+
+/-- With reply-fallback removal, an `mx-reply` element (or one the configuration renames to
+`mx-reply`) disappears with everything inside it, wherever it stands — also below elements that
+are themselves kept or ignored — and whatever other lists say about it. -/
+theorem clean_drops_mx_reply (L : Lists) (c : Cfg) (d : Nat) (n : Str) (as : List Attr) (cs : List Node)
+    (h : c.removeReplyFallback = true) (hn : replaceNameOf L c n = replyName) :
+    cleanNode L c d (.elem n as cs) = [] :=
+  clean_drops_subtree L c d n as cs (.inl (by simp [elemRemoved, h, hn]))
+
+/-- The elements of the output, in document order, are exactly the elements of the input that
+stand outside dropped subtrees, whose name is allowed and whose attribute values are all
+acceptable (`keptElemsL`), each with its filtered attribute set: allowed descendants of elements
+that are merely not allowed are kept, in order, and nothing else appears. -/
+theorem clean_keeps_allowed_descendants (L : Lists) (c : Cfg) (roots : List Node) :
+    elemsOfL (clean L c roots) = keptElemsL L c 0 roots :=
+  cleanList_elems L c roots 0
+
+/-- … and an element that is merely not allowed (ignored by name, not on the allow list, or
+carrying a value with a scheme that is denied / not allowed) is replaced by its cleaned children,
+which count one level deeper. -/
+theorem clean_hoists_children (L : Lists) (c : Cfg) (d : Nat) (n : Str) (as : List Attr) (cs : List Node)
+    (hr : elemRemoved c (replaceNameOf L c n) = false) (hd : depthExceeded L c d = false)
+    (h : elemOk L c (replaceNameOf L c n) = false ∨
+      ∃ a ∈ replaceAttrsOf L c n as, valueOk L c (replaceNameOf L c n) a.name a.value = false) :
+    cleanNode L c d (.elem n as cs) = cleanList L c (d + 1) cs := by
+  have : nodeAction L c (replaceNameOf L c n) (replaceAttrsOf L c n as) d = .ignore := by
+    rw [nodeAction_ignore_iff, removeCheck_eq, hr, hd]
+    refine ⟨rfl, ?_⟩
+    rintro ⟨h1, h2, h3⟩
+    rcases h with h | ⟨a, ha, hv⟩
+    · simp [elemOk, hr, h1, ← allowCheck_eq, h2] at h
+    · rw [h3 a ha] at hv; cases hv
+  simp [cleanNode, this]
+
+/-! ## The public builder -/
+
+/-- "For every `c : Cfg`" is "for every configuration reachable through the public builder":
+every configuration value is the result of `new()` / `strict()` / `compat()` followed by one call
+per field that is set; and each call overwrites exactly its own field (a later call of the same
+method replaces the earlier one). -/
+theorem builder_reaches_every_cfg (c : Cfg) :
+    (∃ calls, build c.mode calls = c) ∧
+    ∀ m calls call, build m (calls ++ [call]) = call.apply (build m calls) :=
+  ⟨builder_reaches c, build_snoc⟩
+
+/-- Removing beats ignoring beats allowing, as the builder documents: an element on the remove
+list goes with its content whatever the ignore and allow lists say; an element on the ignore list
+(not removed, within the depth limit) is replaced by its children even if an allow list names it. -/
+theorem builder_precedence (L : Lists) (c : Cfg) (d : Nat) (n : Str) (as : List Attr) (cs : List Node) :
+    (optContains c.removeElements (replaceNameOf L c n) = true →
+      cleanNode L c d (.elem n as cs) = []) ∧
+    (elemRemoved c (replaceNameOf L c n) = false → depthExceeded L c d = false →
+      optContains c.ignoreElements (replaceNameOf L c n) = true →
+      cleanNode L c d (.elem n as cs) = cleanList L c (d + 1) cs) := by
+  constructor
+  · intro h
+    exact clean_drops_subtree L c d n as cs (.inl (by simp [elemRemoved, h]))
+  · intro hr hd hi
+    exact clean_hoists_children L c d n as cs hr hd (.inl (by simp [elemOk, hi]))
+
+/-- The element allow list of a configuration: without `allow_elements`, the mode's list (no
+mode: everything); with `Override`, exactly the given list; with `Add`, the given list and the
+mode's. -/
+theorem builder_elements (L : Lists) (c : Cfg) (n : Str) :
+    elemListed L c n =
+      match c.allowElements with
+      | none => c.mode.isNone || L.elements.contains n
+      | some ⟨true, l⟩ => l.contains n
+      | some ⟨false, l⟩ => l.contains n || (c.mode.isSome && L.elements.contains n) :=
+  elemListed_cases L c n
+
+/-- The attribute allow list per element, likewise; `remove_attributes` beats it. -/
+theorem builder_attrs (L : Lists) (c : Cfg) (el a : Str) :
+    attrOk L c el a =
+      (!optContains (c.removeAttrs.bind (mapGet · el)) a &&
+      match c.allowAttrs with
+      | none => c.mode.isNone || optContains (mapGet L.attrs el) a
+      | some ⟨true, l⟩ => optContains (mapGet l el) a
+      | some ⟨false, l⟩ => optContains (mapGet l el) a || (c.mode.isSome && optContains (mapGet L.attrs el) a)) :=
+  attrOk_cases L c el a
+
+/-- The class allow list per element, likewise (patterns); `remove_classes` beats it. -/
+theorem builder_classes (L : Lists) (c : Cfg) (el cl : Str) :
+    classOk L c el cl =
+      (!removedClass (c.removeClasses.bind (mapGet · el)) cl &&
+      match c.allowClasses with
+      | none => c.mode.isNone || anyGlob ((mapGet L.classes el).getD []) cl
+      | some ⟨true, l⟩ => anyGlob ((mapGet l el).getD []) cl
+      | some ⟨false, l⟩ => anyGlob ((mapGet l el).getD []) cl ||
+          (c.mode.isSome && anyGlob ((mapGet L.classes el).getD []) cl)) :=
+  classOk_cases L c el cl
+
+/-- `allow_schemes(…, Override)`: an attribute is restricted exactly to the schemes the given
+list names for it; the mode's lists (also compat's `matrix`) no longer count. -/
+theorem builder_schemes_override (L : Lists) (c : Cfg) (l : SchemeMap) (el a : Str)
+    (h : c.allowSchemes = some ⟨true, l⟩) :
+    Spec.HtmlPolicy.schemeList L c el a = (mapGet l el).bind (mapGet · a) :=
+  schemeList_override L c l el a h
+
+/-- `allow_schemes(…, Add)` and no `allow_schemes` at all: the schemes of the given list (if any),
+of the strict list when a mode is set, and of the compat list in compat mode, chained; an
+attribute none of them names is unrestricted. -/
+theorem builder_schemes_strict (L : Lists) (c : Cfg) (el a : Str) :
+    (∀ l, c.allowSchemes = some ⟨false, l⟩ →
+      Spec.HtmlPolicy.schemeList L c el a = chain3 ((mapGet l el).bind (mapGet · a))
+        (if c.mode.isSome then (mapGet L.schemesStrict el).bind (mapGet · a) else none)
+        (if c.mode = some .compat then (mapGet L.schemesCompat el).bind (mapGet · a) else none)) ∧
+    (c.allowSchemes = none →
+      Spec.HtmlPolicy.schemeList L c el a = chain3 none
+        (if c.mode.isSome then (mapGet L.schemesStrict el).bind (mapGet · a) else none)
+        (if c.mode = some .compat then (mapGet L.schemesCompat el).bind (mapGet · a) else none)) :=
+  ⟨fun l h => schemeList_add L c l el a h, schemeList_mode L c el a⟩
+
+/-- The builder theorems on a concrete configuration: compat mode, `allow_elements([center],
+Add)`, `remove_elements([center, u])`, `ignore_elements([b])`, `allow_schemes(a[href]: [tel],
+Override)`: `center` is removed although allowed, `b` is replaced by its children, `tel:` links
+stay and `https:`/`matrix:` links no longer do. -/
+example :
+    let c := build (some .compat)
+      [.allowElements [bs "center"] false, .removeElements [bs "center", bs "u"],
+       .ignoreElements [bs "b"], .allowSchemes [(bs "a", [(bs "href", [bs "tel"])])] true]
+    clean Spec.HtmlAllow.lists c
+      [.elem (bs "center") [] [.text (bs "x")],
+       .elem (bs "b") [] [.elem (bs "a") [⟨none, [], bs "href", bs "tel:1"⟩] [.text (bs "y")]],
+       .elem (bs "a") [⟨none, [], bs "href", bs "matrix:u/a"⟩] [.text (bs "z")]] =
+      [.elem (bs "a") [⟨none, [], bs "href", bs "tel:1"⟩] [.text (bs "y")], .text (bs "z")] := by
+  decide +kernel
 
 /-! ## The standard configurations at the spec's lists -/
 
@@ -212,6 +352,17 @@ end Ruma.Props.C14
 #print axioms Ruma.Props.C14.clean_depth_le
 #print axioms Ruma.Props.C14.clean_no_mx_reply
 #print axioms Ruma.Props.C14.clean_keeps_text_in_order
+#print axioms Ruma.Props.C14.clean_drops_subtree
+#print axioms Ruma.Props.C14.clean_drops_mx_reply
+#print axioms Ruma.Props.C14.clean_keeps_allowed_descendants
+#print axioms Ruma.Props.C14.clean_hoists_children
+#print axioms Ruma.Props.C14.builder_reaches_every_cfg
+#print axioms Ruma.Props.C14.builder_precedence
+#print axioms Ruma.Props.C14.builder_elements
+#print axioms Ruma.Props.C14.builder_attrs
+#print axioms Ruma.Props.C14.builder_classes
+#print axioms Ruma.Props.C14.builder_schemes_override
+#print axioms Ruma.Props.C14.builder_schemes_strict
 #print axioms Ruma.Props.C14.plain_elemOk_spec
 #print axioms Ruma.Props.C14.plain_attrOk_spec
 #print axioms Ruma.Props.C14.plain_valueOk_spec
